@@ -10,6 +10,7 @@ import (
 	"encoding/json"
 	"fmt"
 	"net"
+	"net/http"
 	"sort"
 	"sync"
 	"time"
@@ -109,6 +110,10 @@ type Cluster struct {
 	reqs     []StreamReq
 	closed   bool
 
+	// MgmtMode scripts the management endpoint: "" (200), "error" (500), "silent" (no answer).
+	MgmtMode string
+	mgmtHits int
+
 	// Hook is consulted for every request (after logging) unless nil.
 	Hook func(e *Entry) Action
 	// OnStreamReq scripts stream-request answers; nil = success with the vBucket's failover log.
@@ -120,12 +125,14 @@ type Cluster struct {
 }
 
 type Node struct {
-	c     *Cluster
-	Idx   int
-	ln    net.Listener
-	Addr  string
-	Port  int
-	conns map[*Conn]struct{}
+	c        *Cluster
+	Idx      int
+	ln       net.Listener
+	mgmtLn   net.Listener
+	MgmtPort int
+	Addr     string
+	Port     int
+	conns    map[*Conn]struct{}
 }
 
 type Conn struct {
@@ -156,6 +163,29 @@ func New(servers, numVb, replicas int) *Cluster {
 		}
 		n := &Node{c: c, Idx: i, ln: ln, Addr: ln.Addr().String(), conns: map[*Conn]struct{}{}}
 		n.Port = ln.Addr().(*net.TCPAddr).Port
+		// trivial management endpoint (gocbcore's Ping of the mgmt service is a plain GET)
+		if ml, err := net.Listen("tcp", "127.0.0.1:0"); err == nil {
+			n.mgmtLn = ml
+			n.MgmtPort = ml.Addr().(*net.TCPAddr).Port
+			go func(n *Node) {
+				_ = http.Serve(n.mgmtLn, http.HandlerFunc(func(w http.ResponseWriter, r *http.Request) {
+					c.mu.Lock()
+					mode := c.MgmtMode
+					c.mgmtHits++
+					c.mu.Unlock()
+					switch {
+					case r.URL.Path != "" && r.URL.Path != "/":
+						w.WriteHeader(http.StatusNotFound)
+					case mode == "error":
+						w.WriteHeader(http.StatusInternalServerError)
+					case mode == "silent":
+						<-r.Context().Done()
+					default:
+						_, _ = w.Write([]byte("{}"))
+					}
+				}))
+			}(n)
+		}
 		c.Nodes = append(c.Nodes, n)
 	}
 	c.VbMap = make([][]int, numVb)
@@ -184,6 +214,13 @@ func (c *Cluster) Addrs() []string {
 	return a
 }
 
+// MgmtHits returns the number of requests the management endpoints received.
+func (c *Cluster) MgmtHits() int {
+	c.mu.Lock()
+	defer c.mu.Unlock()
+	return c.mgmtHits
+}
+
 func (c *Cluster) Since() time.Duration { return time.Since(c.t0) }
 
 // Close shuts all listeners and connections.
@@ -193,6 +230,9 @@ func (c *Cluster) Close() {
 	c.mu.Unlock()
 	for _, n := range c.Nodes {
 		_ = n.ln.Close()
+		if n.mgmtLn != nil {
+			_ = n.mgmtLn.Close()
+		}
 		c.mu.Lock()
 		for cn := range n.conns {
 			_ = cn.nc.Close()
@@ -249,7 +289,7 @@ func (c *Cluster) config(self int) []byte {
 	var nodesExt, nodes []any
 	for i, n := range c.Nodes {
 		serverList = append(serverList, fmt.Sprintf("$HOST:%d", n.Port))
-		e := map[string]any{"services": map[string]int{"kv": n.Port, "mgmt": 10000 + i}}
+		e := map[string]any{"services": map[string]int{"kv": n.Port, "mgmt": n.MgmtPort}}
 		if len(c.Nodes) > 1 {
 			e["hostname"] = "127.0.0.1"
 		}
@@ -257,7 +297,7 @@ func (c *Cluster) config(self int) []byte {
 			e["thisNode"] = true
 		}
 		nodesExt = append(nodesExt, e)
-		nodes = append(nodes, map[string]any{"hostname": fmt.Sprintf("$HOST:%d", 10000+i), "ports": map[string]int{"direct": n.Port}})
+		nodes = append(nodes, map[string]any{"hostname": fmt.Sprintf("$HOST:%d", n.MgmtPort), "ports": map[string]int{"direct": n.Port}})
 	}
 	cfg := map[string]any{
 		"rev": c.rev, "revEpoch": 1, "name": "b", "nodeLocator": "vbucket", "uuid": c.BucketUUID,
